@@ -51,6 +51,7 @@ type c04Reg struct {
 	onListed  func(n int)
 	reports   [][]c04Inst
 	skip      int // listings whose answer was already recorded as a report by the event itself
+	quiet     bool // listings that prime sibling watchers (not the pool): answered and counted, not recorded
 }
 
 // report records what a FULL-REPLACE event of the driver says about the watched service: the
@@ -121,7 +122,7 @@ func (r *c04Reg) ListServiceInstances(serviceName string) (map[string]*servicere
 			}
 		}
 		sort.Slice(rep, func(i, j int) bool { return rep[i].ID < rep[j].ID })
-		if serviceName == "svc" {
+		if serviceName == "svc" && !r.quiet {
 			if r.skip > 0 {
 				r.skip--
 			} else {
@@ -157,7 +158,8 @@ func (r *c04Reg) state() (listed int, nrep int, last []c04Inst) {
 
 type c04WStep struct {
 	Set  []c04Inst `json:"set"`
-	Kind string    `json:"kind"` // apply | replace | other (event about another service) | silent (no event)
+	Kind string    `json:"kind"` // apply | replace | other (event about another service) | silent (no event) | ...
+	N    int       `json:"n,omitempty"` // siblings: number of sibling watchers created and stopped
 }
 
 type c04WatchIn struct {
@@ -401,6 +403,23 @@ func c04RunWatch(t *testing.T, in c04WatchIn) (obs c04WatchObs) {
 			reg.report(st.Set)
 			reg.notify <- &serviceregistry.RegistryEvent{UseReplace: true, Replace: c04RegMap(st.Set, "svc")}
 			wantListed++
+		case "siblings":
+			// n sibling watchers of the same service are created and stopped directly on the registry
+			// (other pools / pipelines being reloaded n times); each gets its own priming listing, the
+			// long-lived pool is told nothing and must keep receiving later reports
+			reg.set(prev)
+			cur = prev
+			reg.mu.Lock()
+			reg.quiet = true
+			reg.mu.Unlock()
+			for j := 0; j < st.N; j++ {
+				w := c04SR.NewServiceWatcher(c04RegName, "svc")
+				w.Stop()
+			}
+			reg.mu.Lock()
+			reg.quiet = false
+			reg.mu.Unlock()
+			wantListed += st.N
 		case "regen":
 			// pipeline update: the next generation of the pool is created (initial listing + watcher
 			// registration with its priming listing) BEFORE the previous generation is closed
@@ -446,6 +465,9 @@ func c04RunWatch(t *testing.T, in c04WatchIn) (obs c04WatchObs) {
 				Replace: c04RegMap([]c04Inst{{ID: 997, Tags: []string{"blue", "green", "v1"}, W: 1}}, "other")}
 			wantListed++
 		case "apply":
+			// the driver's content after this change is st.Set: that is what discovery reports now,
+			// whether or not the controller goes on to list the service
+			reg.report(st.Set)
 			ev := &serviceregistry.RegistryEvent{}
 			if len(st.Set) > 0 {
 				ev.Apply = c04RegMap(st.Set, "svc")
@@ -679,9 +701,35 @@ func c04GenWatch(r *vfRand, adv bool) c04WatchIn {
 		gens = append(gens, c04WStep{Set: c04GenSet(r, &next, r.Chance(3, 4)), Kind: r.PickStr("apply", "replace")})
 		in.Steps = append(in.Steps[:at], append(gens, in.Steps[at:]...)...)
 	}
+	if r.Chance(1, 3) || adv { // many sibling watchers come and go (8 bit wrap of any watcher numbering), then a report
+		c04AddSiblings(r, &in, &next, r.PickInt(255, 256, 257, 300, 300, 520))
+	}
 	in.Seed = int64(r.Intn(1 << 30))
 	m := r.Range(1, 6)
 	for i := 0; i < m; i++ {
+		in.Reqs = append(in.Reqs, c04GenReq(r))
+	}
+	return in
+}
+
+func c04AddSiblings(r *vfRand, in *c04WatchIn, next *int, n int) {
+	at := r.Intn(len(in.Steps) + 1)
+	ins := []c04WStep{{Set: []c04Inst{}, Kind: "siblings", N: n},
+		{Set: c04GenSet(r, next, true), Kind: r.PickStr("apply", "replace")}}
+	in.Steps = append(in.Steps[:at], append(ins, in.Steps[at:]...)...)
+}
+
+// c04GenWatchLong : next to the long-lived pool more than 2^16 sibling watchers are created and
+// stopped (a 16 bit wrap of any watcher numbering), then a report, then selections.
+func c04GenWatchLong(r *vfRand) c04WatchIn {
+	in := c04WatchIn{Policy: LoadBalancePolicyRoundRobin, HKey: "X-User", Tags: []string{"green"}, Static: []int{1}}
+	next := 1
+	in.Init = c04GenSet(r, &next, true)
+	in.Init[0].Tags = []string{"green"}
+	in.Steps = []c04WStep{{Set: []c04Inst{}, Kind: "siblings", N: 65536 + r.Range(1, 300)},
+		{Set: []c04Inst{{ID: 70001, Tags: []string{"green"}, W: 1}, {ID: 70002, Tags: []string{"green", "v1"}, W: 1}}, Kind: r.PickStr("apply", "replace")}}
+	in.Seed = int64(r.Intn(1 << 30))
+	for i := 0; i < 4; i++ {
 		in.Reqs = append(in.Reqs, c04GenReq(r))
 	}
 	return in
@@ -998,6 +1046,9 @@ func TestVerifC04Watch(t *testing.T) {
 			out.Emit(vfCase{ID: fmt.Sprintf("%s-chain-%d", src, i), Src: src, Grp: "chain", In: in, Obs: c04RunChain(in)})
 		} else if i%3 == 0 {
 			in := c04GenWatch(r, adv)
+			if i == 0 {
+				in = c04GenWatchLong(r)
+			}
 			out.Emit(vfCase{ID: fmt.Sprintf("%s-watch-%d", src, i), Src: src, Grp: "watch", In: in, Obs: c04RunWatch(t, in)})
 		} else {
 			in := c04GenRetry(r, adv)
